@@ -112,11 +112,19 @@ struct R {
     last_hint: String,
     /// a message with an altered checksum field was delivered in this session
     garbled: bool,
+    /// reference bookkeeping of which ticks each side must still hold (the mechanism the property
+    /// names: the sender diffs against the last acknowledged snapshot if it still has it, the
+    /// receiver applies a delta to the stored snapshot with exactly the named base tick)
+    client_has: std::collections::BTreeSet<i32>,
+    sender_has: std::collections::BTreeSet<i32>,
+    /// what `delta_tick()` must be: the last acknowledgement the sender could honour
+    sender_base: Option<i32>,
+    ack_result: Option<(i32, bool)>,
 }
 
 impl R {
     fn new() -> R {
-        R { sender: Storage::new(), client: Manager::new(), msgs: vec![], acks: vec![], sent: BTreeMap::new(), last_tick: None, mixed: false, serials: BTreeMap::new(), last_hint: String::new(), garbled: false }
+        R { sender: Storage::new(), client: Manager::new(), msgs: vec![], acks: vec![], sent: BTreeMap::new(), last_tick: None, mixed: false, serials: BTreeMap::new(), last_hint: String::new(), garbled: false, client_has: Default::default(), sender_has: Default::default(), sender_base: None, ack_result: None }
     }
 
     fn ack_str(&self) -> String {
@@ -138,6 +146,12 @@ impl R {
                 // snapshot is simply dropped
                 return format!("builder-err {:?}", e);
             }
+        }
+        if api_ok && self.sender.delta_tick() != self.sender_base {
+            o.fail(
+                "C13/sender-base-not-last-acknowledged",
+                format!("tick {}: delta_tick() = {:?}, last honoured acknowledgement {:?}", tick, self.sender.delta_tick(), self.sender_base),
+            );
         }
         let snap = builder.finish();
         let crc = snap.crc();
@@ -169,6 +183,7 @@ impl R {
             parts += 1;
         }
         self.last_tick = Some(tick);
+        self.sender_has.insert(tick);
         // hint for the Lean driver: serial numbers by content
         if self.serials.is_empty() {
             self.serials.insert(canon(&Snap::empty()).ints, 0);
@@ -213,6 +228,7 @@ impl R {
         let line;
         let accepted: Option<Canon>;
         let is_err;
+        let mut err_kind: Option<manager::Error> = None;
         match res {
             Ok(None) => {
                 line = "ok none".to_string();
@@ -229,9 +245,43 @@ impl R {
                 line = format!("err {:?}", e);
                 accepted = None;
                 is_err = true;
+                err_kind = Some(e);
             }
         }
         let after = self.client.ack_tick();
+        // ---- oracle: which base ticks the client must still know
+        let base = match &m {
+            OMsg::Empty { tick, dt } | OMsg::Single { tick, dt, .. } | OMsg::Snap { tick, dt, .. } => tick.wrapping_sub(*dt),
+        };
+        let drain = |set: &mut std::collections::BTreeSet<i32>, b: i32| {
+            if b >= 0 {
+                let keep = set.split_off(&b);
+                *set = keep;
+            }
+        };
+        match (&accepted, &err_kind) {
+            (Some(_), _) => {
+                drain(&mut self.client_has, base);
+                self.client_has.insert(tick);
+                if self.client_has.len() > 100 {
+                    let oldest = *self.client_has.iter().next().unwrap();
+                    self.client_has.remove(&oldest);
+                }
+            }
+            (None, Some(manager::Error::Storage(storage::Error::UnknownSnap))) => {
+                if base >= 0 && self.client_has.contains(&base) {
+                    o.fail(
+                        "C13/stored-base-reported-unknown",
+                        format!("msg tick {} base {}: the client accepted tick {} and nothing allowed it to drop it", tick, base, base),
+                    );
+                }
+                drain(&mut self.client_has, base);
+            }
+            (None, Some(manager::Error::Storage(storage::Error::InvalidCrc))) | (None, Some(manager::Error::Storage(storage::Error::Unpack(_)))) => {
+                drain(&mut self.client_has, base);
+            }
+            _ => {}
+        }
         // ---- oracle
         if let Some(c) = &accepted {
             o.count("accepted");
@@ -276,9 +326,34 @@ impl R {
         format!("{} ack={} w={}", line, self.ack_str(), list_str(w))
     }
 
+    /// the sender honours an acknowledgement exactly when it still holds that snapshot; it holds
+    /// every snapshot not older than the last acknowledgement it processed
+    fn check_ack(&mut self, o: &mut Oracle) {
+        if let Some((v, ok)) = self.ack_result.take() {
+            if v < 0 {
+                self.sender_base = None;
+                if !ok {
+                    o.fail("C13/sender-refused-negative-acknowledgement", format!("ack {}", v));
+                }
+                return;
+            }
+            let keep = self.sender_has.split_off(&v);
+            self.sender_has = keep;
+            let expect = self.sender_has.contains(&v);
+            if ok != expect {
+                o.fail(
+                    "C13/sender-forgot-or-invented-acknowledged-snapshot",
+                    format!("ack {}: set_delta_tick says {}, the sender {} that snapshot", v, if ok { "ok" } else { "UnknownSnap" }, if expect { "must still hold" } else { "cannot hold" }),
+                );
+            }
+            self.sender_base = if ok { Some(v) } else { None };
+        }
+    }
+
     fn deliver_ack(&mut self, v: i32) -> String {
         let mut ws: Vec<storage::WeirdNegativeDeltaTick> = vec![];
         let r = self.sender.set_delta_tick(&mut ws, v);
+        self.ack_result = Some((v, r.is_ok()));
         let dt = match self.sender.delta_tick() {
             None => "none".to_string(),
             Some(t) => t.to_string(),
@@ -359,17 +434,24 @@ impl Runner for R {
             ["da", j] => match j.parse::<usize>().ok() {
                 Some(j) if j < self.acks.len() => {
                     let v = self.acks[j];
-                    self.deliver_ack(v)
+                    let line = self.deliver_ack(v);
+                    self.check_ack(o);
+                    line
                 }
                 _ => "bad-index".to_string(),
             },
             ["ra", v] => match v.parse::<i32>().ok() {
-                Some(v) => self.deliver_ack(v),
+                Some(v) => {
+                    let line = self.deliver_ack(v);
+                    self.check_ack(o);
+                    line
+                }
                 None => "bad-args".to_string(),
             },
             // manual aid for writing corpus files (not used in generated requests)
             ["hint"] => self.last_hint.clone(),
             ["creset"] => {
+                self.client_has.clear();
                 self.client.reset();
                 "ok".to_string()
             }
